@@ -1,4 +1,5 @@
 import CgtModel.Report
+import CgtModel.Lemmas.WellFormed
 import CgtModel.Lemmas.Covered
 import CgtModel.Props.C02
 /-! # C05 — a report is produced exactly when every sale is covered by shares held
@@ -143,6 +144,14 @@ where
       have := covered_setOffsets f ds ((p + d.B - d.S) * d.r)
       simp only [C02.setOffsets] at this
       exact and_congr Iff.rfl this
+
+/-- **C05 from the raw ledger**: a validator-clean ledger is accepted iff every security passes its
+    cost pre-pass and every sale is covered — no hypothesis on intermediate data remains -/
+theorem C05_ledger (w : Int) (l : List Tx) (hwf : WellFormed l) :
+    (∃ rs, run w l = .ok rs) ↔
+      ∀ t ∈ tickersOf (preprocess l),
+        (∃ ds', withOffsets t (daysOf t (preprocess l)) = .ok ds') ∧ covered 0 (daysOf t (preprocess l)) :=
+  C05_run_accepts_iff w l (fun t _ => (wellFormed_days l hwf t).1)
 
 -- non-vacuity and the D2 witness: 100 bought, 100 + 100 sold on consecutive days, 100 bought back
 def d2Days : List Day :=
